@@ -142,6 +142,10 @@ func report(id string, spec *CheckSpec, o runOpts, results []*unitResult, known 
 		unitInfo = append(unitInfo, ui)
 	}
 	for _, v := range unconf {
+		if v.Kind == "hang" {
+			inconclusive = append(inconclusive, fmt.Sprintf("instruction budget too small, not a hang: the native build finishes on the input of %s (vector %s)", v.Case, vecStr(v.Vector)))
+			continue
+		}
 		inconclusive = append(inconclusive, fmt.Sprintf("engine-mismatch: model for %q in %s did not reproduce natively (vector %s)", v.Msg, v.Case, vecStr(v.Vector)))
 	}
 	for _, m := range missing {
@@ -234,9 +238,9 @@ func report(id string, spec *CheckSpec, o runOpts, results []*unitResult, known 
 			"exit_status":                            exit,
 		},
 	}
-	os.MkdirAll(filepath.Join(verifDir, "evidence"), 0o755)
+	os.MkdirAll(filepath.Join(outDir, "evidence"), 0o755)
 	b, _ := json.MarshalIndent(ev, "", " ")
-	os.WriteFile(filepath.Join(verifDir, "evidence", id+".json"), b, 0o644)
+	os.WriteFile(filepath.Join(outDir, "evidence", id+".json"), b, 0o644)
 	fmt.Printf("SUMMARY %s tier=%s exit=%d cases=%d paths=%d branch_points=%d queries=%d (sat %d unsat %d unknown %d) assertions_unsat=%d/%d (+%d path-concrete) native_validated=%d covers=%d/%d assert_sites=%d/%d funcs=%d solver=%.1fs wall=%.1fs\n",
 		id, o.tier, exit, nCases, paths, branchPts, queries, sat, unsat, unknown, asserts, assertQ, assertsConc, nativeOK, coversReached, coversTotal, assertSitesReached, assertSitesTotal, len(fnames), solverTime.Seconds(), wall.Seconds())
 	_ = strings.Join
